@@ -63,6 +63,7 @@ class Check:
         self.begin_count = 0
         self.foreign_notes = set()
         self.extra = {}
+        self.shapes = set()       # (op, status, dependency-call shape) of every call recorded from the code
         self.level = "model_checking"
         self.rule = ""
         self.exhaustive = None
@@ -138,9 +139,23 @@ class Check:
         """Counts for the evidence file; returns the list of (line_no, exec name) of Reset events."""
         resets = []
         n = 0
+        cur_op, shape = None, []
         with open(tr) as f:
             for i, line in enumerate(f, 1):
                 n += 1
+                if line.startswith('{"e":"Begin"'):
+                    m = re.match(r'\{"e":"Begin","op":"(\w+)"', line)
+                    cur_op, shape = (m.group(1) if m else None), []
+                elif cur_op and line.startswith(('{"e":"Alloc"', '{"e":"Free"', '{"e":"Memzero"')):
+                    m = re.match(r'\{"e":"(\w+)".*?"blk":(-?\d+)', line)
+                    b = int(m.group(2))
+                    shape.append((m.group(1), "block" if b >= 1 else "null" if b == 0 else "stack"))
+                elif cur_op and line.startswith(('{"e":"Rand"', '{"e":"Time"', '{"e":"Kdf"')):
+                    shape.append((line[6:line.index('"', 6)], "-"))
+                elif cur_op and line.startswith('{"e":"Ret"'):
+                    m = re.search(r'"st":(\d+)', line[:200])
+                    self.shapes.add((cur_op, int(m.group(1)) if m else 0, tuple(shape)))
+                    cur_op = None
                 if line.startswith('{"e":"Reset"'):
                     resets.append((i, json.loads(line)["name"]))
                 elif line.startswith('{"e":"Begin"') or line.startswith('{"e":"Find"') or line.startswith('{"e":"Words"') \
